@@ -687,6 +687,27 @@ impl<'tcx> Cx<'tcx> {
                             if let Ok(st) = std::str::from_utf8(bytes) {
                                 o.push(("str", J::s(st)));
                             }
+                        } else {
+                            // constant data made of string slices (&[&str], &[(&str, &str)], ..):
+                            // the strings in memory order
+                            let mut strs = Vec::new();
+                            let mut ok = true;
+                            match val {
+                                mir::ConstValue::Scalar(mir::interpret::Scalar::Ptr(ptr, _)) => {
+                                    let (prov, _off) = ptr.into_raw_parts();
+                                    collect_strs(tcx, prov.alloc_id(), 0, &mut strs, &mut ok);
+                                }
+                                mir::ConstValue::Indirect { alloc_id, .. } => {
+                                    collect_strs(tcx, alloc_id, 0, &mut strs, &mut ok);
+                                }
+                                mir::ConstValue::Slice { alloc_id, .. } => {
+                                    collect_strs(tcx, alloc_id, 0, &mut strs, &mut ok);
+                                }
+                                _ => ok = false,
+                            }
+                            if ok {
+                                o.push(("strs", J::Arr(strs.into_iter().map(J::s).collect())));
+                            }
                         }
                     }
                 }
@@ -900,5 +921,51 @@ fn slice_bytes<'tcx>(tcx: TyCtxt<'tcx>, val: &mir::ConstValue) -> Option<&'tcx [
     match val {
         mir::ConstValue::Slice { .. } => val.try_get_slice_bytes_for_diagnostics(tcx),
         _ => None,
+    }
+}
+
+/// Strings reachable from a constant allocation, in memory order: every pointer in the allocation is
+/// followed; a pointer followed by a length word whose target is valid UTF-8 of that length is a `&str`.
+fn collect_strs<'tcx>(tcx: TyCtxt<'tcx>, id: mir::interpret::AllocId, depth: usize, out: &mut Vec<String>, ok: &mut bool) {
+    use mir::interpret::GlobalAlloc;
+    if depth > 3 {
+        *ok = false;
+        return;
+    }
+    let Some(GlobalAlloc::Memory(alloc)) = tcx.try_get_global_alloc(id) else {
+        *ok = false;
+        return;
+    };
+    let alloc = alloc.inner();
+    let len = alloc.len();
+    let bytes = alloc.inspect_with_uninit_and_ptr_outside_interpreter(0..len);
+    let ptrs: Vec<(usize, mir::interpret::AllocId)> =
+        alloc.provenance().ptrs().iter().map(|(off, prov)| (off.bytes() as usize, prov.alloc_id())).collect();
+    for (i, (off, target)) in ptrs.iter().enumerate() {
+        // candidate &str: pointer word followed by a length word that is not itself a pointer
+        let next_ptr = ptrs.get(i + 1).map(|p| p.0);
+        let has_len = off + 16 <= len && next_ptr != Some(off + 8);
+        let mut as_str = None;
+        if has_len {
+            let mut lb = [0u8; 8];
+            lb.copy_from_slice(&bytes[off + 8..off + 16]);
+            let l = u64::from_le_bytes(lb) as usize;
+            let mut ob = [0u8; 8];
+            ob.copy_from_slice(&bytes[*off..off + 8]);
+            let toff = u64::from_le_bytes(ob) as usize;
+            if let Some(GlobalAlloc::Memory(t)) = tcx.try_get_global_alloc(*target) {
+                let t = t.inner();
+                if toff + l <= t.len() && t.provenance().ptrs().is_empty() {
+                    let tb = t.inspect_with_uninit_and_ptr_outside_interpreter(toff..toff + l);
+                    if let Ok(st) = std::str::from_utf8(tb) {
+                        as_str = Some(st.to_string());
+                    }
+                }
+            }
+        }
+        match as_str {
+            Some(st) => out.push(st),
+            None => collect_strs(tcx, *target, depth + 1, out, ok),
+        }
     }
 }
